@@ -441,3 +441,57 @@ func errBranchFacts(s *src, f *facts) {
 	}
 	f.b("errBranchesHandled", len(bad) == 0 && n > 0, ev)
 }
+
+// recoverFacts: the three deferred recover blocks of registry.go (stub, closure proxy, handler goroutine) have
+// the canonical shape — the panic value becomes `err` if it is an error, else ErrPanickedWithNonErrorValue, then
+// an unconditional setErr(err) — and the two that belong to reflect.MakeFunc bodies repair the result list for
+// both arities ([err] / [zero, err], in that order) so that reflect never sees a wrong result count.
+func recoverFacts(s *src, f *facts) {
+	norm := func(n ast.Node) string { return strings.Join(strings.Fields(s.str(n)), " ") }
+	blocks, fixups := 0, 0
+	ok := true
+	var why []string
+	for _, file := range s.files {
+		ast.Inspect(file, func(x ast.Node) bool {
+			i, isIf := x.(*ast.IfStmt)
+			if !isIf || i.Init == nil || norm(i.Init) != "e := recover()" || norm(i.Cond) != "e != nil" {
+				return true
+			}
+			if len(s.callsTo(i.Body, "setErr")) == 0 {
+				return true // utils.Call's recover and the lookup's: other facts
+			}
+			blocks++
+			var stmts []string
+			for _, st := range i.Body.List {
+				stmts = append(stmts, norm(st))
+			}
+			got := strings.Join(stmts, " ;; ")
+			a := "var ok bool ;; err, ok = e.(error) ;; if !ok { err = utils.ErrPanickedWithNonErrorValue } ;; setErr(err)"
+			b := "err, ok := e.(error) ;; if !ok { err = utils.ErrPanickedWithNonErrorValue } ;; setErr(err)"
+			if got != a && got != b {
+				ok = false
+				why = append(why, "recover block at "+s.pos(i)+": "+got)
+			}
+			return true
+		})
+		ast.Inspect(file, func(x ast.Node) bool {
+			i, isIf := x.(*ast.IfStmt)
+			if !isIf || norm(i.Cond) != "len(results) != functionType.NumOut()" {
+				return true
+			}
+			fixups++
+			got := norm(i.Body)
+			want := "{ errReturnValue := reflect.ValueOf(err) if functionType.NumOut() == 1 { results = []reflect.Value{errReturnValue} } else if functionType.NumOut() == 2 { valueReturnValue := reflect.Zero(functionType.Out(0)) results = []reflect.Value{valueReturnValue, errReturnValue} } }"
+			if got != want {
+				ok = false
+				why = append(why, "result fix-up at "+s.pos(i)+": "+got)
+			}
+			return true
+		})
+	}
+	ev := "3 recover blocks, 2 result fix-ups"
+	if len(why) > 0 {
+		ev = strings.Join(why, " | ")
+	}
+	f.b("recoverBlocksCanonical", ok && blocks >= 3 && fixups >= 2, ev)
+}
